@@ -207,37 +207,46 @@ def site_of(impl):
     return m.group(1) if m else "-"
 
 
-def judge_alloc(c):
+def symptoms(c):
+    """what is wrong with a catalogue run, as a dict {class: detail}; classes: crash, ledger, lsan, consumed, canary, body, baseline"""
     i = c["impl"] or ""
     w = c["input"].split()
     scn = w[1]
     ks = [int(x) for x in w[2:]]
     if i.startswith("crash"):
-        return ("spec", "scenario %s, failing request(s) %s requested by %s: the real code aborted (%s)" % (
-            scn, ks, site_of(i), i.split(" ", 2)[2] if len(i.split(" ", 2)) > 2 else i))
-    if i == "bad-op":
-        return ("tie", "harness does not know this line")
+        return {"crash": i.split(" ", 2)[2] if len(i.split(" ", 2)) > 2 else i}
     f = fields(i)
-    what = []
+    what = {}
     led = f.get("ledger", "")
     if not led.startswith("true"):
-        what.append("the real allocation trace is rejected by the verified monitor ledgerOk: %s" % led)
+        what["ledger"] = "the real allocation trace is rejected by the verified monitor ledgerOk: %s" % led
     if f.get("lsan", "0") != "0":
-        what.append("LeakSanitizer reports a leak after everything was freed")
+        what["lsan"] = "LeakSanitizer reports a leak after everything was freed"
     if f.get("pdu_consumed") != "yes":
-        what.append("a PDU given to coap_send was never released (%s, sends=%s)" % (f.get("pdu_consumed"), f.get("sends")))
+        what["consumed"] = "a PDU given to coap_send was never released (%s, sends=%s)" % (f.get("pdu_consumed"), f.get("sends"))
     can = f.get("canary", "")
     if not can.startswith("ok"):
-        what.append("the canary exchange with memory available failed (%s: 1 no PDU, 2 coap_send refused, 3 request never reached "
-                    "the handler, 4 no response, 5 wrong response code)" % can)
+        what["canary"] = ("the canary exchange with memory available failed (%s: 1 no PDU, 2 coap_send refused, 3 request never "
+                          "reached the handler, 4 no response, 5 wrong response code)" % can)
     out = f.get("out", "")
     m = re.search(r"body(\d+)/(\d+),put(\d+)/(\d+)", out)
     if m and (int(m.group(2)) or int(m.group(4))):
-        what.append("the application was handed a truncated or wrong body as if it were complete (%s)" % m.group(0))
+        what["body"] = "the application was handed a truncated or wrong body as if it were complete (%s)" % m.group(0)
     if all(k == 0 for k in ks) and out != EXPECT0.get(scn):
-        what.append("without any failing request the scenario's outcome is `%s`, expected `%s`" % (out, EXPECT0.get(scn)))
+        what["baseline"] = "without any failing request the scenario's outcome is `%s`, expected `%s`" % (out, EXPECT0.get(scn))
+    return what
+
+
+def judge_alloc(c):
+    i = c["impl"] or ""
+    w = c["input"].split()
+    if i == "bad-op":
+        return ("tie", "harness does not know this line")
+    what = symptoms(c)
     if what:
-        return ("spec", "scenario %s, failing request(s) %s requested by %s: %s" % (scn, ks, site_of(i), "; ".join(what)))
+        return ("spec", "scenario %s, failing request(s) %s requested by %s: %s" % (
+            w[1], [int(x) for x in w[2:]], site_of(i),
+            ("the real code aborted (%s)" % what["crash"]) if "crash" in what else "; ".join(what.values())))
     return None
 
 
@@ -290,16 +299,24 @@ def classify(c):
 
 # ------------------------------------------------------------------ known findings: (scenario, requesting function, what happens)
 def known(ctx, c):
+    """signature = (scenario, function that requested a failing allocation, what happens).  A case matches an open finding only
+    if one of its failing sites lies in the finding's code AND its symptoms are within the finding's symptoms: a different
+    site with the same symptom, or the same site with another symptom, is still reported."""
     w = c["input"].split()
     if w[0] != "alloc":
         return None
-    i = c["impl"] or ""
-    sites = site_of(i).split(",")
-    # every failing site of the case must belong to the same finding: a different site is still reported
-    def all_sites(pred):
-        return sites != ["-"] and all(pred(s) for s in sites)
-    if w[1] == "osc" and all_sites(lambda s: "get_split_entry" in s and "coap_new_oscore_conf" in s or "coap_parse_oscore_conf_mem" in s):
+    sites = site_of(c["impl"] or "").split(",")
+    what = set(symptoms(c))
+    if not what or sites == ["-"]:
+        return None
+    def some_site(*names):
+        return any(all(n in s.split("<") for n in names) for s in sites)
+    # coap_parse_oscore_conf_mem stops at the first entry it cannot store and returns the incomplete configuration
+    if w[1] == "osc" and some_site("get_split_entry", "coap_parse_oscore_conf_mem") and what <= {"canary", "ledger", "lsan"}:
         return "oscore-conf-alloc-failure-ignored"
+    # any failure while coap_handle_response_get_block reassembles / asks for the next block: the single block goes to the app
+    if w[1] == "b2" and some_site("coap_handle_response_get_block") and what == {"body"}:
+        return "block2-partial-body-on-alloc-failure"
     return None
 
 
